@@ -320,6 +320,106 @@ Theorem no_sink_cases :
   find_sink POtherParent = no_sink /\ find_sink (PIndexOperand None) = no_sink.
 Proof. repeat split; intros; try reflexivity; destruct a; reflexivity. Qed.
 
+(* ------------------------------------------------------------------ the results a function declares *)
+(* A result list is written as FIELDS (go/ast: FuncType.Results.List): each field declares one type for k >= 0 names; a field
+   without names declares one unnamed result. The operands of a return statement are numbered per RESULT, not per field:
+   `func f() (first, second error, n int)` has two fields and three results. *)
+Definition result_field := (nat * ty)%type.      (* (number of names written in the field, its type) *)
+
+Definition field_results (f : result_field) : list ty := repeat (snd f) (Nat.max 1 (fst f)).
+Definition declared_results (fs : list result_field) : list ty := flat_map field_results fs.
+
+Lemma field_results_length f : List.length (field_results f) = Nat.max 1 (fst f).
+Proof. apply repeat_length. Qed.
+
+Lemma nth_repeat_in {A} (a d : A) n i : i < n -> nth i (repeat a n) d = a.
+Proof. revert i. induction n as [|n IH]; intros i H; [lia|]. destruct i; cbn; [reflexivity|apply IH; lia]. Qed.
+
+Lemma declared_results_app a b : declared_results (a ++ b)%list = (declared_results a ++ declared_results b)%list.
+Proof. unfold declared_results. apply flat_map_app. Qed.
+
+(* operand i of `return ...` sinks into the type of the field that DECLARES result i: the one reached after the results of
+   the fields in front of it, wherever the grouping puts it *)
+Theorem sink_of_return_declared pre k t post i :
+  List.length (declared_results pre) <= i < List.length (declared_results pre) + Nat.max 1 k ->
+  find_sink (PReturn (Some i) (Some (declared_results (pre ++ (k, t) :: post)%list))) = t.
+Proof.
+  intros [Hlo Hhi]. cbn [find_sink]. unfold nth_ty.
+  rewrite declared_results_app. rewrite app_nth2 by lia.
+  change (declared_results ((k, t) :: post)) with (field_results (k, t) ++ declared_results post)%list.
+  rewrite app_nth1 by (rewrite field_results_length; cbn [fst]; lia).
+  unfold field_results. cbn [fst snd].
+  apply nth_repeat_in. lia.
+Qed.
+
+(* a function that returns more operands than it declares results does not type-check; behind the list there is no sink *)
+Theorem sink_of_return_beyond fs i : List.length (declared_results fs) <= i ->
+  find_sink (PReturn (Some i) (Some (declared_results fs))) = no_sink.
+Proof. intros H. cbn [find_sink]. unfold nth_ty. now apply nth_overflow. Qed.
+
+(* numbering the operands by FIELD is another function: it agrees when every field declares at most one name ... *)
+Definition by_field (fs : list result_field) (i : nat) : ty := nth_ty i (map snd fs).
+
+Theorem by_field_agrees_ungrouped fs : (forall f, In f fs -> fst f <= 1) -> map snd fs = declared_results fs.
+Proof.
+  induction fs as [|[k t] r IH]; intros H; [reflexivity|].
+  change (declared_results ((k, t) :: r)) with (field_results (k, t) ++ declared_results r)%list.
+  cbn [map snd]. rewrite IH by (intros f Hf; apply H; now right).
+  assert (k <= 1) as Hk by (apply (H (k, t)); now left).
+  unfold field_results. cbn [fst snd]. destruct k as [|[|k]]; [reflexivity|reflexivity|lia].
+Qed.
+
+(* ... and is refuted by any grouped field that is followed by a field of another type *)
+Theorem by_field_refuted k t u post : 2 <= k -> t <> u ->
+  exists i, i < List.length (declared_results ((k, t) :: (1, u) :: post))
+    /\ by_field ((k, t) :: (1, u) :: post) i <> find_sink (PReturn (Some i) (Some (declared_results ((k, t) :: (1, u) :: post)))).
+Proof.
+  intros Hk Htu. exists 1. split.
+  - change (declared_results ((k, t) :: (1, u) :: post)) with (field_results (k, t) ++ declared_results ((1, u) :: post))%list.
+    rewrite app_length, field_results_length. cbn [fst]. lia.
+  - pose proof (sink_of_return_declared [] k t ((1, u) :: post) 1) as H. cbn [app] in H.
+    rewrite H by (unfold declared_results; cbn [flat_map List.length]; lia). unfold by_field, nth_ty. cbn. congruence.
+Qed.
+
+(* the function a return statement belongs to: the innermost function declaration or literal around it. The path lists the
+   nodes around the statement from the inside out (params.nodePath above the ReturnStmt). *)
+Inductive path_node :=
+| NFunc (is_literal : bool) (results : list result_field)     (* *ast.FuncDecl / *ast.FuncLit with the fields of its result list *)
+| NOtherNode.
+
+Fixpoint containing_func (path : list path_node) : option (list result_field) :=
+  match path with
+  | [] => None
+  | NFunc _ rs :: _ => Some rs
+  | NOtherNode :: rest => containing_func rest
+  end.
+
+Theorem containing_func_innermost pre lit rs post :
+  (forall n, In n pre -> n = NOtherNode) -> containing_func (pre ++ NFunc lit rs :: post)%list = Some rs.
+Proof.
+  induction pre as [|n pre IH]; intros H; [reflexivity|].
+  rewrite (H n) by now left. cbn. apply IH. intros m Hm. apply H. now right.
+Qed.
+
+Theorem containing_func_none path : (forall n, In n path -> n = NOtherNode) -> containing_func path = None.
+Proof.
+  induction path as [|n path IH]; intros H; [reflexivity|].
+  rewrite (H n) by now left. cbn. apply IH. intros m Hm. apply H. now right.
+Qed.
+
+Definition return_parent (pos : option nat) (path : list path_node) : sink_parent :=
+  PReturn pos (option_map declared_results (containing_func path)).
+
+(* the whole statement: operand i of a return statement sinks into the type declared for result i of the innermost function *)
+Theorem sink_of_return_operand pre lit fpre k t fpost post i :
+  (forall n, In n pre -> n = NOtherNode) ->
+  List.length (declared_results fpre) <= i < List.length (declared_results fpre) + Nat.max 1 k ->
+  find_sink (return_parent (Some i) (pre ++ NFunc lit (fpre ++ (k, t) :: fpost) :: post)%list) = t.
+Proof.
+  intros Hpre Hi. unfold return_parent. rewrite containing_func_innermost by exact Hpre. cbn [option_map].
+  now apply sink_of_return_declared.
+Qed.
+
 (* ------------------------------------------------------------------ the documented case structure of the helpers *)
 (* one line per case of the type switch: node types (comma separated, as written) -> body, whitespace-normalised *)
 Definition doc_pure_cases : list (string * string) := [
